@@ -183,18 +183,19 @@ func (c *Ctx) FreshVar(prefix string, w uint8, dom *[4]uint64) *Term {
 		t.dom = &d
 	}
 	if c.model != nil {
-		if _, ok := c.model[name]; !ok {
-			var v uint64
-			if dom != nil {
-				for x := uint64(0); x < 256; x++ {
-					if inDom(dom, x) {
-						v = x
-						break
-					}
+		// the variable is new on this path, so no earlier conjunct constrains it: give it a value inside its domain
+		// (the model may carry a stale value under the same name from another path or from solver model completion)
+		var v uint64
+		if dom != nil {
+			for x := uint64(0); x < 256; x++ {
+				if inDom(dom, x) {
+					v = x
+					break
 				}
 			}
-			c.model[name] = v
 		}
+		c.model[name] = v
+		delete(c.memo, t)
 	}
 	if dom != nil {
 		// assert domain in SMT as well (prefilter is only constant propagation)
